@@ -45,7 +45,6 @@ HEX_MAX = 65536
 
 # findings found by this check in the unchanged repository (see notes/C20.md); classification is by exception type AND raising frame
 FINDINGS = [
-    ('FC20a', 'OverflowError', 'DAT_parser.py', '_unit_ddmmyy_to_datetime_date'),
     ('FC20b', 'error', 'FileIndexer.py', '__init__'),
     ('FC20c', 'OverflowError', 'cRepCode.pyx', None),
 ]
